@@ -12,6 +12,10 @@ inductive Slot where
   | empty
   | buf (b : Buf)
   | rep (r : Rep)
+  /-- a `&'static UBig` / `&'static IBig` produced by `ubig!`/`static_ubig!`-style code:
+      `static VALUE: UBig = unsafe { UBig::from_static_words(DATA) }; &VALUE` with ≥ 3 words.  The
+      words live in a `static` array — not an allocation of ours; the register can only be read. -/
+  | stat (ws : List Nat) (neg : Bool)
   deriving DecidableEq, Repr
 
 abbrev Pool := Nat → Slot
@@ -28,6 +32,7 @@ def Slot.own : Slot → Option (Nat × Nat)
   | .buf b => some (b.id, b.cap)
   | .rep (.inline ..) => none
   | .rep (.heap id cap _ _) => some (id, cap)
+  | .stat .. => none
 
 /-- the words a slot exposes to a borrower (`&[Word]`), with the allocation they live in -/
 def Slot.view : Slot → Option (Option Nat × List Nat)
@@ -35,6 +40,7 @@ def Slot.view : Slot → Option (Option Nat × List Nat)
   | .buf b => some (some b.id, b.ws)
   | .rep (.inline lo hi code n) => some (none, (Rep.inline lo hi code n).words)
   | .rep (.heap id _ ws _) => some (some id, ws)
+  | .stat ws _ => some (none, ws)
 
 inductive Op where
   -- constructors (target register must be empty)
@@ -75,6 +81,16 @@ inductive Op where
   | withSign (k : Nat) (neg : Bool)
   | neg (k : Nat)
   | asSlice (k : Nat)
+  /-- `IBig::from_static_words(sign, DATA)` / `UBig::from_static_words(DATA)` in a `static` item -/
+  | fromStaticWords (k : Nat) (ws : List Nat) (neg : Bool)
+  /-- `Buffer::from(words of register j)` (`words.into()` in the `TypedReprRef` arms) -/
+  | bufFromView (k j : Nat)
+  /-- `buffer.push_slice(&words_of_j[lo..])` -/
+  | pushTailFrom (k j lo : Nat)
+  /-- a kernel writing through `&mut buffer[..]` (bounds-checked slice operations): the words
+      change arbitrarily, the length does not -/
+  | overwrite (k : Nat) (ws : List Nat)
+  | intoSignTyped (k : Nat)
   -- any register
   | drop (k : Nat)
   deriving DecidableEq, Repr
@@ -88,6 +104,7 @@ def Op.target : Op → Nat
   | .lowestDword k | .lowestDwordMut k _ _ | .deref k | .cloneFromSlice k _
   | .cloneFromSliceFrom k _ | .bufCloneFrom k _ | .intoBoxedSlice k | .fromBuffer k
   | .intoBuffer k | .intoTyped k | .repCloneFrom k _ | .withSign k _ | .neg k | .asSlice k
+  | .fromStaticWords k _ _ | .bufFromView k _ | .pushTailFrom k _ _ | .overwrite k _ | .intoSignTyped k
   | .drop k => k
 
 /-- run `f` on the empty register `k` -/
@@ -133,6 +150,7 @@ def step (W mx : Nat) (P : Pool) : Op → M Pool
   | .repClone k j => if k = j then illTyped else
       match P j with
       | .rep src => create P k (repSlot (Rep.clone mx src))
+      | .stat ws neg => create P k (repSlot (Rep.cloneStatic mx ws neg))
       | _ => illTyped
   | .ensureCapacity k n => onBuf P k fun b => bufSlot (ensureCapacity mx b n)
   | .ensureCapacityExact k c => onBuf P k fun b => bufSlot (ensureCapacityExact b c)
@@ -175,14 +193,45 @@ def step (W mx : Nat) (P : Pool) : Op → M Pool
   | .repCloneFrom k j => if k = j then illTyped else
       match P j with
       | .rep src => onRep P k fun r => repSlot (Rep.cloneFrom mx r src)
+      | .stat ws neg => onRep P k fun r => repSlot (Rep.cloneFromStatic mx r ws neg)
       | _ => illTyped
   | .withSign k neg => onRep P k fun r => pure (.rep (r.withSign neg))
   | .neg k => onRep P k fun r => pure (.rep r.negate)
-  | .asSlice k => onRep P k fun r => do let _ ← Rep.asSlice r; pure (.rep r)
+  | .asSlice k =>
+      match P k with
+      | .stat _ _ => pure P            -- `as_sign_slice` of a static value: the `static` array itself
+      | _ => onRep P k fun r => do let _ ← Rep.asSlice r; pure (.rep r)
+  | .fromStaticWords k ws neg => create P k do
+      let o ← Rep.fromStaticWords ws
+      match o with
+      | .value r => pure (.rep (r.withSign neg))
+      | .stat ws' => pure (.stat ws' neg)
+  | .bufFromView k j => if k = j then illTyped else
+      match (P j).view with
+      | some (src, ws) => create P k (bufSlot (fromSlice mx src ws))
+      | none => illTyped
+  | .pushTailFrom k j lo => if k = j then illTyped else
+      match (P j).view with
+      | some (src, ws) =>
+        -- `&ws[lo..]` panics (slice index) when `lo > len`
+        if lo ≤ ws.length then onBuf P k fun b => bufSlot (pushSlice b src (ws.drop lo))
+        else onBuf P k fun _ => assertFail "slice index starts past the end"
+      | none => illTyped
+  | .overwrite k ws => onBuf P k fun b =>
+      if ws.length = b.len then do
+        emits (wr b.id 0 b.len)
+        pure (.buf { b with ws := ws })
+      else illTyped
+  | .intoSignTyped k => onRep P k fun r => do
+      let o ← Rep.intoSignTyped r
+      match o.2 with
+      | .small lo hi => pure (.rep (Rep.fromDword lo hi))
+      | .large b => pure (.buf b)
   | .drop k => match P k with
       | .empty => pure P
       | .buf b => do dropBuf b; pure (P.set k .empty)
       | .rep r => do Rep.drop r; pure (P.set k .empty)
+      | .stat _ _ => pure (P.set k .empty)   -- the register held `&'static T`: dropping a reference does nothing
 
 /-- a history -/
 def run (W mx : Nat) : List Op → Pool → M Pool
